@@ -26,6 +26,7 @@ type c19Act struct {
 
 const c19Prelude = `class U {}
 class W {}
+class X {}
 class Box<T> { public T $v; public function id(T $x) { return 1; } }
 class Pair<K, V> { public K $k; public V $v; public function setv(V $x) { return 1; } }
 `
@@ -42,6 +43,8 @@ func c19Value(kind string) string {
 		return "new U()"
 	case "W":
 		return "new W()"
+	case "X":
+		return "new X()"
 	}
 	panic(kind)
 }
@@ -68,7 +71,7 @@ func c19Script(acts []c19Act, spawned bool) string {
 func C19(c *Ctx) *kf.Report {
 	rep := &kf.Report{Property: "C19", Level: "model_checking", Coverage: map[string]any{}}
 	rep.Assumptions = []string{
-		"fixture classes Box<T> (property v, method id(T)) and Pair<K,V> (properties k, v, method setv(V)); value kinds int, string, array, U, unrelated W",
+		"fixture classes Box<T> (property v, method id(T)) and Pair<K,V> (properties k, v, method setv(V)); type arguments int, string, array, U, W; value kinds the same plus an unrelated class X",
 		"acceptance is observed as: the write / call completes vs. raises a catchable Throwable",
 	}
 	maxOps := c.Pick(3, 4)
